@@ -74,7 +74,7 @@ def run_attrs(ctx):
         lo, hi, words, sfx, _ = rf.SYNTAX[kw]
         ar = rf.ARITIES.get(kw, list(range(lo, hi + 1)))
         for n in ar:
-            variants = [(False, None, False, None)] + [(False, None, False, k) for k in range(4)]
+            variants = [(False, None, False, None)] + [(False, None, False, k) for k in range(4)] + [(False, None, False, 'zero')]
             if kw in DEFS_MAP:
                 variants.append((True, None, False, None))
             if sfx:     # restraints: with a residue number / class on the keyword, in lower case
@@ -86,6 +86,12 @@ def run_attrs(ctx):
                 if kw in ('AFIX',):
                     toks = [kw] + [rf.fmt_num(v) for v in ([43, 0.98, 10.5, -1.5][:n])]
                     nums = [43, 0.98, 10.5, -1.5][:n]
+                if spell == 'zero':         # explicit zeros are values, not omissions: 'DAMP 0 0' is not 'DAMP'
+                    if not nums or kw in ('DFIX', 'DANG', 'NCSY', 'HFIX', 'AFIX', 'MPLA', 'SUMP', 'L.S.', 'CGLS', 'HKLF', 'TWIN', 'PART', 'LATT', 'FMAP', 'LIST', 'MOVE', 'STIR'):
+                        continue
+                    nums = [0] * len(nums)
+                    toks = [toks[0]] + ['0'] * len(nums) + toks[1 + len(nums):]
+                    spell = None
                 if spell is not None:       # the same numbers in other legal spellings: '.5', '-.5', '+.5', '+0.5', '0.50'
                     if not nums:
                         continue
@@ -279,6 +285,16 @@ def run_special(ctx):
         shx.update_weight()
         toks = str(shx.wght).split()
         expect('WGHT text after update_weight', case, [0.0543, 1.2345], [float(x) for x in toks[1:3]])
+        # ... and setting the instruction back to the text it was read from must take effect again
+        shx.wght.set('WGHT 0.1 0.2')
+        toks = str(shx.wght).split()
+        case = {'instruction': "update_weight(), then wght.set('WGHT 0.1 0.2') (the original text)", 'text': text}
+        expect('WGHT attributes after set() following update_weight()', case, [0.1, 0.2], [shx.wght.a, shx.wght.b])
+        expect('WGHT text after set() following update_weight()', case, [0.1, 0.2], [float(x) for x in toks[1:3]])
+        for nm, v in zip('ab', (0.07, 0.9)):
+            setattr(shx.wght, nm, v)
+        shx.wght.set('WGHT 0.1 0.2')
+        expect('WGHT attributes after assignment and set() to the original text', case, [0.1, 0.2], [shx.wght.a, shx.wght.b])
     # restraints: atoms, residue class, resolved residue numbers
     pre = ['RESI 1 TOL', 'C5 1 0.5 0.5 0.5 11.0 0.04', 'RESI 2 TOL', 'C5 1 0.6 0.5 0.5 11.0 0.04', 'RESI 0']
     for line, atoms, cls, nums in (('SADI_TOL 0.03 C5 C6', ['C5', 'C6'], 'TOL', [1, 2]), ('SADI_2 C5 C6', ['C5', 'C6'], '', [2]),
